@@ -81,10 +81,23 @@ Proof.
 Qed.
 
 (* ---------- nthN / updN ---------- *)
+(* the Spec's definitions carry a bound test (cheap evaluation on hostile indices); they are the plain ones *)
+Lemma nthN_eq {A} (l : list A) i : nthN l i = nth_error l (N.to_nat i).
+Proof.
+  unfold nthN. destruct (N.ltb_spec i (N.of_nat (length l))); [reflexivity|]. symmetry. apply nth_error_None. lia.
+Qed.
+Lemma upd_nat_oor0 {A} (l : list A) i g : (length l <= i)%nat -> upd_nat l i g = l.
+Proof. revert i. induction l as [|x l IH]; intros [|i] H; cbn in *; try reflexivity; try lia. f_equal. apply IH. lia. Qed.
+Lemma updN_eq {A} (l : list A) i g : updN l i g = upd_nat l (N.to_nat i) g.
+Proof.
+  unfold updN. destruct (N.ltb_spec i (N.of_nat (length l))); [reflexivity|]. symmetry. apply upd_nat_oor0. lia.
+Qed.
+Lemma nthN_In {A} (l : list A) i x : nthN l i = Some x -> In x l.
+Proof. rewrite nthN_eq. apply nth_error_In. Qed.
 Lemma nthN_Some_lt {A} (l : list A) i x : nthN l i = Some x -> i < N.of_nat (length l).
-Proof. unfold nthN. intros H. assert (nth_error l (N.to_nat i) <> None) by congruence. apply nth_error_Some in H0. lia. Qed.
+Proof. rewrite nthN_eq. intros H. assert (nth_error l (N.to_nat i) <> None) by congruence. apply nth_error_Some in H0. lia. Qed.
 Lemma nthN_None_ge {A} (l : list A) i : nthN l i = None <-> N.of_nat (length l) <= i.
-Proof. unfold nthN. rewrite nth_error_None. lia. Qed.
+Proof. rewrite nthN_eq. rewrite nth_error_None. lia. Qed.
 Lemma nthN_lt_Some {A} (l : list A) i : i < N.of_nat (length l) -> exists x, nthN l i = Some x.
 Proof.
   intros H. destruct (nthN l i) eqn:E; [eauto|]. apply nthN_None_ge in E. lia.
@@ -93,7 +106,7 @@ Qed.
 Lemma upd_nat_length {A} (l : list A) i g : length (upd_nat l i g) = length l.
 Proof. revert i. induction l as [|x l IH]; intros [|i]; cbn; try reflexivity. rewrite IH. reflexivity. Qed.
 Lemma updN_length {A} (l : list A) i g : length (updN l i g) = length l.
-Proof. apply upd_nat_length. Qed.
+Proof. rewrite updN_eq. apply upd_nat_length. Qed.
 Lemma upd_nat_nth_same {A} (l : list A) i g : nth_error (upd_nat l i g) i = option_map g (nth_error l i).
 Proof. revert i. induction l as [|x l IH]; intros [|i]; cbn; try reflexivity. apply IH. Qed.
 Lemma upd_nat_nth_other {A} (l : list A) i j g : i <> j -> nth_error (upd_nat l i g) j = nth_error l j.
@@ -102,13 +115,13 @@ Proof.
   apply IH. congruence.
 Qed.
 Lemma nthN_updN_same {A} (l : list A) i g : nthN (updN l i g) i = option_map g (nthN l i).
-Proof. apply upd_nat_nth_same. Qed.
+Proof. rewrite !nthN_eq, updN_eq. apply upd_nat_nth_same. Qed.
 Lemma nthN_updN_other {A} (l : list A) i j g : i <> j -> nthN (updN l i g) j = nthN l j.
-Proof. intros H. apply upd_nat_nth_other. lia. Qed.
+Proof. intros H. rewrite !nthN_eq, updN_eq. apply upd_nat_nth_other. lia. Qed.
 Lemma upd_nat_oor {A} (l : list A) i g : (length l <= i)%nat -> upd_nat l i g = l.
 Proof. revert i. induction l as [|x l IH]; intros [|i] H; cbn in *; try reflexivity; try lia. f_equal. apply IH. lia. Qed.
 Lemma updN_oor {A} (l : list A) i g : N.of_nat (length l) <= i -> updN l i g = l.
-Proof. intros H. apply upd_nat_oor. lia. Qed.
+Proof. intros H. rewrite updN_eq. apply upd_nat_oor. lia. Qed.
 Lemma upd_nat_id {A} (l : list A) i g : (forall x, nth_error l i = Some x -> g x = x) -> upd_nat l i g = l.
 Proof.
   revert i. induction l as [|x l IH]; intros [|i] H; cbn in *; try reflexivity.
@@ -118,14 +131,14 @@ Qed.
 Lemma upd_nat_upd_nat_same {A} (l : list A) i g h : upd_nat (upd_nat l i g) i h = upd_nat l i (fun x => h (g x)).
 Proof. revert i. induction l as [|x l IH]; intros [|i]; cbn; try reflexivity. f_equal. apply IH. Qed.
 Lemma updN_updN_same {A} (l : list A) i g h : updN (updN l i g) i h = updN l i (fun x => h (g x)).
-Proof. apply upd_nat_upd_nat_same. Qed.
+Proof. rewrite !updN_eq. apply upd_nat_upd_nat_same. Qed.
 Lemma upd_nat_comm {A} (l : list A) i j g h : i <> j -> upd_nat (upd_nat l i g) j h = upd_nat (upd_nat l j h) i g.
 Proof.
   revert i j. induction l as [|x l IH]; intros [|i] [|j] H; cbn; try reflexivity; try congruence.
   f_equal. apply IH. congruence.
 Qed.
 Lemma updN_comm {A} (l : list A) i j g h : i <> j -> updN (updN l i g) j h = updN (updN l j h) i g.
-Proof. intros H. apply upd_nat_comm. lia. Qed.
+Proof. intros H. rewrite !updN_eq. apply upd_nat_comm. lia. Qed.
 Lemma upd_nat_ext {A} (l : list A) i g h : (forall x, g x = h x) -> upd_nat l i g = upd_nat l i h.
 Proof.
   intros H. revert i. induction l as [|x l IH]; intros [|i]; cbn; try reflexivity.
@@ -133,7 +146,7 @@ Proof.
   - f_equal. apply IH.
 Qed.
 Lemma updN_ext {A} (l : list A) i g h : (forall x, g x = h x) -> updN l i g = updN l i h.
-Proof. apply upd_nat_ext. Qed.
+Proof. intros H. rewrite !updN_eq. apply upd_nat_ext. exact H. Qed.
 
 (* ---------- option monad inversion ---------- *)
 Lemma if_some_inv {A} (c : bool) (x : option A) y : (if c then x else None) = Some y <-> c = true /\ x = Some y.
@@ -198,4 +211,4 @@ Proof.
   - f_equal. apply IH. exact H.
 Qed.
 Lemma setN_updN {A} (l : list A) i g x : nthN l i = Some x -> setN l i (g x) = updN l i g.
-Proof. intros H. unfold setN, updN. apply upd_nat_const. exact H. Qed.
+Proof. intros H. unfold setN. rewrite !updN_eq. apply upd_nat_const. rewrite <- nthN_eq. exact H. Qed.
